@@ -470,3 +470,38 @@ func writeTowers63(repoRoot, srcRoot, verifRoot string, check bool) int {
 	}
 	return stale
 }
+
+// ---------------- small-field extensions ----------------
+
+type smallExtCfg struct {
+	Rel   string // field/koalabear/extensions
+	Field string // koalabear
+	Beta  string // documented quadratic non-residue (doc.go of the package)
+	HasE4 bool
+}
+
+var smallExts = []smallExtCfg{
+	{Rel: "field/koalabear/extensions", Field: "koalabear", Beta: "3", HasE4: true},
+	{Rel: "field/babybear/extensions", Field: "babybear", Beta: "11", HasE4: true},
+	{Rel: "field/goldilocks/extensions", Field: "goldilocks", Beta: "7", HasE4: false},
+}
+
+func writeSmallExts(repoRoot, srcRoot, verifRoot string, check bool) int {
+	b, err := os.ReadFile(filepath.Join(verifRoot, "contracts", "tower", "fq4over2.go.tmpl"))
+	if err != nil {
+		return 0
+	}
+	stale := 0
+	for _, c := range smallExts {
+		s := string(b)
+		if !c.HasE4 {
+			if i := strings.Index(s, "// ---------------- E4 over E2 ----------------"); i > 0 {
+				s = s[:i]
+			}
+		}
+		s = strings.ReplaceAll(s, "BETA", c.Beta)
+		s = strings.ReplaceAll(s, "FIELD", c.Field)
+		stale += installText(filepath.Join(repoRoot, c.Rel, "zz_verif_contracts_tower.go"), s, check)
+	}
+	return stale
+}
